@@ -78,3 +78,24 @@ VARIANTS += [
          old="        lock_rename_file = self._lock_file + str(uuid.uuid4()) + RENAME_FILE_SUFFIX\n        try:",
          new="        if not os.path.exists(self._lock_file):\n            raise RuntimeError(\"Error: did not possess lock\")\n        lock_rename_file = self._lock_file + str(uuid.uuid4()) + RENAME_FILE_SUFFIX\n        try:"),
 ]
+
+VARIANTS += [
+    # round 4
+    dict(id="c05-takeover-loser-raises-symlink", prop="C05", file=JF, expect="R05.7", count=2,
+         old="                            try:\n                                self.release()\n                                sleep_secs = 0.001\n                            except RuntimeError:\n                                continue\n",
+         new="                            self.release()\n                            sleep_secs = 0.001\n"),
+    dict(id="c05-takeover-catches-wrong-class", prop="C05", file=JF, expect="R05.7", count=2,
+         old="                            except RuntimeError:\n                                continue\n",
+         new="                            except KeyError:\n                                continue\n"),
+    dict(id="c05-takeover-handler-reraises", prop="C05", file=JF, expect="R05.7", count=2,
+         old="                            except RuntimeError:\n                                continue\n",
+         new="                            except RuntimeError:\n                                raise\n"),
+    dict(id="c05-neutral-takeover-catches-exception", prop="C05", file=JF, expect=None, count=2,
+         old="                            except RuntimeError:\n                                continue\n",
+         new="                            except (RuntimeError, OSError):\n                                continue\n"),
+    dict(id="c05-rdb-region-opened-inside-writing-region", prop="C05", file=RDB, expect="R05.4",
+         old="                session.add(models.StudyModel(study_name=study_name, directions=direction_models))\n",
+         new="                session.add(models.StudyModel(study_name=study_name, directions=direction_models))\n                self.get_study_id_from_name(study_name)\n"),
+    dict(id="c05-lock-release-after-failed-acquire", prop="C05", file=JF, expect="R05.5",
+         old="    lock_obj.acquire()\n    try:\n        yield\n", new="    try:\n        lock_obj.acquire()\n        yield\n"),
+]
